@@ -608,8 +608,12 @@ size_t rtosc_message_ring_length(ring_t *ring)
     }
 
     //Take care of varargs
+    const size_t total = ring[0].len+ring[1].len;
     while(toparse)
     {
+        //No full message present: stop before pos can wrap around
+        if(pos > total)
+            return 0;
         char arg = deref(arguments++,ring);
         assert(arg);
         uint32_t i;
@@ -640,6 +644,9 @@ size_t rtosc_message_ring_length(ring_t *ring)
                 i |= (deref(pos++,ring) << 16);
                 i |= (deref(pos++,ring) << 8);
                 i |= (deref(pos++,ring));
+                //The blob has to fit into the remaining bytes
+                if(pos > total || i > total-pos)
+                    return 0;
                 pos += i;
                 if((pos-aligned_pos)%4)
                     pos += 4-(pos-aligned_pos)%4;
